@@ -184,6 +184,12 @@ def two_step(case, ji_normal, ji_partial, seed):
     pobjs = [p for p, *_ in ldlink.inputs_of(main_ast)]
     if not pobjs or not all(ldlink.safe_path(p) for p in pobjs):
         return "skip:unsafe-partial-path", []
+    # under wildcard_sections a pattern such as `.data*` of the main script also captures the partial object's
+    # `.data.noinit`: section names that extend one another make the two links differ by construction
+    for sg_ in ji_normal["parse"]["ok"]["segments"]:
+        names_ = sg_["alloc_sections"] + sg_["noload_sections"]
+        if sg_["wildcard_sections"] and any(a != b and b.startswith(a) for a in names_ for b in names_):
+            return "skip:section-names-extend-one-another", []
     # a file listed in two segments (or one linker-offset name used by two) is defined by two partial objects:
     # the two-step link then fails by construction of partial linking, whatever slinky emits
     seen_files, seen_syms = {}, {}
